@@ -901,3 +901,21 @@ Theorem C09X_compress_kmers_lgraph_ok : forall K st mode, (1 <= K)%nat ->
   LooseGraph.lgraph_ok K st (PipelineCheck.kjoin_f mode colf) LS g.
 Proof. exact LooseGraph.compress_lgraph_ok. Qed.
 Print Assumptions C09X_compress_kmers_lgraph_ok.
+
+(* ---- the producer of censor lists: CleanGraph::find_bad_nodes (src/clean_graph.rs; model Algo/CleanGraph.v) ----------
+   It returns, in strictly ascending order and without repetition, exactly the ids of the nodes that have no extension
+   bit on one side, at most one on the other, and satisfy the caller's predicate - a well-formed censor list (ids in
+   range) for compress_graph, to which C09C_recompress_unitig_censored / C09(X)_* apply. *)
+From DBG Require Import Algo.CleanGraph Proofs.CleanGraphProofs.
+From Coq Require Import Sorted.
+Theorem C09_find_bad_nodes_spec : forall D (tip_pred : gnode D -> bool) (g : graph D) i,
+  In i (find_bad_nodes D tip_pred g) <-> exists n, nth_error g i = Some n /\ test_tip D tip_pred n = true.
+Proof. exact find_bad_nodes_spec. Qed.
+Theorem C09_find_bad_nodes_sorted : forall D (tip_pred : gnode D -> bool) (g : graph D),
+  StronglySorted lt (find_bad_nodes D tip_pred g) /\ NoDup (find_bad_nodes D tip_pred g) /\
+  forall i, In i (find_bad_nodes D tip_pred g) -> (i < length g)%nat.
+Proof.
+  intros D tp g. split; [exact (find_bad_nodes_sorted D tp g)|exact (find_bad_nodes_nodup_in_range D tp g)].
+Qed.
+Print Assumptions C09_find_bad_nodes_spec.
+Print Assumptions C09_find_bad_nodes_sorted.
